@@ -153,10 +153,31 @@ let ty_of_name n =
 
 let keep_cfg cfg = (cfg = "keep" || cfg = "keepsplit")
 
-(* retention is only emitted for the sync decoders: decode_async of a keep build is the plain template *)
+(* `async:*` cases are answered by the model of the decode_async templates (GenAsync.v: no TLengthProtocol calls,
+   TAsyncInputProtocol::skip, no retention -- decode_async of a keep build is the plain template); the model of a
+   stream is the byte string it delivers, so the schedule is ignored *)
 let decode cfg mode p ty bytes =
   let is_async = String.length mode >= 5 && String.sub mode 0 5 = "async" in
-  if keep_cfg cfg && not is_async then gen_decode_keep_top !schema p ty bytes else gen_decode_top !schema p ty bytes
+  if is_async then gen_decode_async_top !schema p ty bytes
+  else if keep_cfg cfg then gen_decode_keep_top !schema p ty bytes else gen_decode_top !schema p ty bytes
+
+(* the value tree the bytes carry, read by the runtime's self-describing reader (Interp.read_val, C01) at the wire type
+   of the declared type: the argument of the specifications view / viewk / reenc *)
+let tree_of p ty bytes =
+  let fuel = nat_of_int (List.length bytes + 80) in
+  read_val p fuel (ttype_of_ty !schema ty) { rbuf = bytes; rc = r0 }
+
+let show_spec (r : gval res) (rest : byte list) =
+  match r with
+  | Ok v -> "ok " ^ show v ^ " REM " ^ string_of_int (List.length rest)
+  | Err e -> "err " ^ err_class e
+  | Panic s -> "panic " ^ string_of_site s
+
+let no_tree r =
+  match r with
+  | Err e -> "BADTREE err " ^ err_class e
+  | Panic s -> "BADTREE panic " ^ string_of_site s
+  | Ok _ -> "BADTREE"
 
 let show_dec r =
   match r with
@@ -190,6 +211,29 @@ let run_case (t : toks) : string =
      | Some d ->
        let b0 = byte_of_int 0 in
        "DEF " ^ show d ^ " " ^ size_enc p ty d ^ " EMPTY " ^ show_dec (decode cfg "sync" p ty [b0]))
+  | "view" ->
+    (* EvoSpec.view: what a tolerant reader with this schema must make of the tree (C08) *)
+    let _mode = next t in
+    (match tree_of p ty (bytes_of_hex (next t)) with
+     | Ok (tv, s) -> show_spec (view !schema ty tv) s.rbuf
+     | r -> no_tree r)
+  | "viewk" ->
+    (* KeepSpec.viewk: the same with the encodings of the ignored fields retained (C13); the writer is a fresh
+       runtime writer over a contiguous buffer *)
+    let _mode = next t in
+    (match tree_of p ty (bytes_of_hex (next t)) with
+     | Ok (tv, s) -> show_spec (viewk !schema p BContig w0 ty tv) s.rbuf
+     | r -> no_tree r)
+  | "reenc" ->
+    (* KeepSpec.reenc: the tree the re-encoded message must carry, written by the runtime writer *)
+    let _mode = next t in
+    (match tree_of p ty (bytes_of_hex (next t)) with
+     | Ok (tv, _) ->
+       (match write_val p BContig (reenc !schema ty tv) w0 with
+        | Ok (ss, _) -> "ok ENC " ^ hex_of_bytes (flat ss)
+        | Err e -> "err " ^ err_class e
+        | Panic s -> "panic " ^ string_of_site s)
+     | r -> no_tree r)
   | "adec" ->
     (* decode_async templates (GenAsync.v); the model of a stream is the byte string it delivers *)
     let _mode = next t in
@@ -208,6 +252,7 @@ let run_case (t : toks) : string =
     let k = (match r with Ok _ -> "ok" | Err e -> "err " ^ err_class e | Panic s -> "panic " ^ string_of_site s) in
     k ^ " LEAK " ^ string_of_int (List.length leaked) ^ " HEAP " ^ string_of_int (List.length (List.filter heap_val leaked))
   | s -> failwith ("unknown op " ^ s)
+
 
 (* ---------- literal schema (C20; FORMAT.md section 4): `runner <schema.txt> <lschema.txt>` ---------- *)
 let lschema : lschema ref = ref { ls_items = []; ls_consts = [] }
